@@ -152,6 +152,16 @@ impl Scenario for Cli {
                 subdir = Some(d);
             }
         }
+        // a pyproject.toml whose exclude patterns hide part of the workspace from the server: the CLI must see the same workspace
+        if rng.chance(250) {
+            let dirs: BTreeSet<String> = spec.files.iter().filter(|f| !f.rel.starts_with('.')).filter_map(|f| f.rel.split_once('/').map(|x| x.0.to_string())).collect();
+            let dirs: Vec<String> = dirs.into_iter().filter(|d| d != "plugsrc" && Some(d) != subdir.as_ref()).collect();
+            if !dirs.is_empty() {
+                let d = rng.pick(&dirs).clone();
+                let pat = if rng.chance(500) { format!("{}/**", d) } else { format!("**/{}/**", d) };
+                spec.extra.push(("pyproject.toml".to_string(), format!("[tool.pytest-language-server]\nexclude = [{:?}]\n", pat)));
+            }
+        }
         let r = if tier == Tier::Quick { 3 } else { 6 };
         let mut sims = vec![];
         let mut orders = vec![];
@@ -182,7 +192,16 @@ impl Scenario for Cli {
         out.fingerprint = fnv(&serde_json::to_string(&inp.spec).unwrap());
         // reference: in-process index, as the server builds it
         let root = inp.spec.materialise(&sb.root());
-        let (oc, refd) = scan_then(&inp.sims[0], replay_list(input, 0), root.clone(), |db, root| {
+        if inp.spec.extra.iter().any(|(f, _)| f == "pyproject.toml") {
+            out.count("fault.exclude_patterns_configured", 1);
+        }
+        let root_c = root.clone();
+        let (oc, refd) = simrt::run(inp.sims[0].cfg(replay_list(input, 0)), move || {
+            // as the server does at initialize: configuration first, then the scan with its exclude patterns
+            let db = std::sync::Arc::new(crate::fixtures::FixtureDatabase::new());
+            let cfg = crate::config::Config::load(&root_c);
+            db.scan_workspace_with_excludes(&root_c, &cfg.exclude);
+            let (db, root) = (&db, &root_c);
             let mut v = vec![];
             for d in all_defs(db) {
                 let n = db.find_references_for_definition(&d).len();
